@@ -2,8 +2,8 @@ SPECIFICATION Spec
 CONSTANTS
   NMin = 2
   NMax = 6
-  IdealMaxN = 3
-  Vals = {0, 1, 3}
+  IdealMaxN = 4
+  Vals = {0, 1, 3, 4}
 INVARIANT RelationsWellFormed
 INVARIANT Partition
 INVARIANT BinMatches
